@@ -485,9 +485,21 @@ func (w *World) fireStallFaults() {
 	if w.stallFaultAt != 0 && w.step >= w.stallFaultAt && w.stallFaults < 6 {
 		w.stallFaultAt = 0
 		w.stallFaults++
-		si := w.rng.IntN(len(w.servers))
-		w.inject(&Fault{Kind: "reset", Srv: si, Mgr: -1})
-		w.faultsInc("reset-after-stall")
+		var down []int
+		for _, sv := range w.servers {
+			if !sv.Up {
+				down = append(down, sv.Idx)
+			}
+		}
+		if len(down) > 0 && w.rng.IntN(10) < 7 {
+			// a node comes back while the goroutine that was waiting for it is held up
+			w.inject(&Fault{Kind: "restart", Srv: down[w.rng.IntN(len(down))]})
+			w.faultsInc("restart-after-stall")
+		} else {
+			si := w.rng.IntN(len(w.servers))
+			w.inject(&Fault{Kind: "reset", Srv: si, Mgr: -1})
+			w.faultsInc("reset-after-stall")
+		}
 	}
 }
 
